@@ -263,36 +263,51 @@ Theorem C16_generated_sum :
 Proof. exact (fun K E l r => conj (gen_add_assign K E l r) (gen_add_assign_in_bounds K E l r)). Qed.
 Print Assumptions C16_generated_sum.
 
-(** 4e. the generated factory, with the generated constructors: nothing when no switch is on,
-    otherwise the pointwise sum (order: CSR, wall, collimator, file) of exactly the selected
+(** 4e. the generated factory, with the generated constructors, in the real instance (its
+    conditions are order tests; they are evaluated by [lra] in every sign case of gap, s, xi and
+    r_coll, so any equivalent way of writing them proves the same theorem): nothing when no switch is
+    on, otherwise the pointwise sum (order: CSR, wall, collimator, file) of exactly the selected
     contributions, each constructed with the documented arguments - parallel plates
     (n, c/(2 pi R), fmax, gap) iff gap > 0 and use_csr; free space (n, c/(2 pi R), fmax) iff gap < 0
     and use_csr; wall (n, frev, fmax, c/frev, s, xi, |gap/2|) iff gap <> 0, s > 0, xi >= -1;
     collimator (n, fmax, |gap/2|, r_coll) iff gap <> 0 and 0 < r_coll < |gap/2|; the file iff named *)
 Theorem C16_generated_factory :
-  forall (K : Fld) (E : Leaves K) n fmax R_bend frev gap use_csr s xi rc file,
-    0 <= n -> R_bend <> f0 -> frev <> f0 -> l_pi E <> f0 ->
-    makeImpedance K E n fmax R_bend frev gap use_csr s xi rc file =
+  forall (c Z0 : R) (PP : Z -> R -> R -> R -> list creal) n fmax R_bend frev gap use_csr s xi rc file,
+    0 <= n -> R_bend <> 0%R -> frev <> 0%R ->
+    makeImpedance RF (ER c Z0 PP) n fmax R_bend frev gap use_csr s xi rc file =
+    let E := ER c Z0 PP in
     if g_any_selected E gap use_csr s xi rc file
-    then Some (pointwise_sum cpx0 (l_cadd E) n
-                 (g_parts E (l_PP E n (sp_f0 E R_bend) fmax gap)
-                          (FreeSpaceCSR_ctor K E n (sp_f0 E R_bend) fmax)
-                          (ResistiveWall_ctor K E n frev fmax (l_c E / frev)%F s xi (sp_radius E gap))
-                          (CollimatorImpedance_ctor K E n fmax (sp_radius E gap) rc)
+    then Some (pointwise_sum cr0 cr_add n
+                 (g_parts E (PP n (c / ((1 + 1) * PI * R_bend))%R fmax gap)
+                          (FreeSpaceCSR_ctor RF E n (c / ((1 + 1) * PI * R_bend))%R fmax)
+                          (ResistiveWall_ctor RF E n frev fmax (c / frev)%R s xi (Rabs (gap / (1 + 1))))
+                          (CollimatorImpedance_ctor RF E n fmax (Rabs (gap / (1 + 1))) rc)
                           gap use_csr s xi rc file))
     else None.
-Proof. exact gen_factory. Qed.
+Proof. exact gen_factory_R. Qed.
 Print Assumptions C16_generated_factory.
 
-(** the same for arbitrary constructors of the four models: this is the function the
-    correspondence runs (extracted, [gen_factory_q]) with the implementation's own vectors *)
+(** the same for arbitrary constructors of the four models: [makeImpedance_with] is the function
+    the correspondence runs in its Qc instance (extracted, [gen_factory_q]) with the
+    implementation's own vectors *)
 Theorem C16_generated_factory_with :
-  forall (K : Fld) (E : Leaves K) PPc FSc RWc COLLc n fmax R_bend frev gap use_csr s xi rc file,
-    0 <= n -> R_bend <> f0 -> frev <> f0 -> l_pi E <> f0 ->
-    makeImpedance_with K E PPc FSc RWc COLLc n fmax R_bend frev gap use_csr s xi rc file =
-    sp_factory_with E PPc FSc RWc COLLc n fmax R_bend frev gap use_csr s xi rc file.
-Proof. exact gen_factory_with. Qed.
+  forall (c Z0 : R) (PP : Z -> R -> R -> R -> list creal) PPc FSc RWc COLLc n fmax R_bend frev gap use_csr s xi rc file,
+    0 <= n -> R_bend <> 0%R -> frev <> 0%R ->
+    makeImpedance_with RF (ER c Z0 PP) PPc FSc RWc COLLc n fmax R_bend frev gap use_csr s xi rc file =
+    sp_factory_with (ER c Z0 PP) PPc FSc RWc COLLc n fmax R_bend frev gap use_csr s xi rc file.
+Proof. exact gen_factory_with_R. Qed.
 Print Assumptions C16_generated_factory_with.
+
+(** the switches of the specification mean what the property text says *)
+Theorem C16_switch_meaning :
+  forall (c Z0 : R) (PP : Z -> R -> R -> R -> list creal) gap use_csr s xi rc,
+    let E := ER c Z0 PP in
+    (g_sel_pp E gap use_csr = true <-> (0 < gap)%R /\ use_csr = true) /\
+    (g_sel_fs E gap use_csr = true <-> (gap < 0)%R /\ use_csr = true) /\
+    (g_sel_rw E gap s xi = true <-> gap <> 0%R /\ (0 < s)%R /\ (- (1) <= xi)%R) /\
+    (g_sel_coll E gap rc = true <-> gap <> 0%R /\ (0 < rc)%R /\ (rc < Rabs gap / 2)%R).
+Proof. exact switch_meaning. Qed.
+Print Assumptions C16_switch_meaning.
 
 Example C16_generated_factory_example :
   (* n = 5 (odd), gap -1/2 (free space), csr on, wall on, collimator 1/8 < 1/4, file of 3 samples *)
